@@ -30,6 +30,7 @@ func init() {
 			{ID: "R05c", Floor: 4, Doc: "CARv1 mode gates: no pragma, no Finalize, writer base 0", Run: ruleR05c},
 			{ID: "R05d", Floor: 1, Doc: "index written before header, header at PragmaSize (= R06b)", Run: ruleR06b},
 			{ID: "R05e", Floor: 2, Doc: "the index records for each section the writer position taken before its write, after the write succeeded (= R06a)", Run: ruleR06a},
+			{ID: "R05g", Floor: 4, Doc: "the deferred writer creates its file truncating and builds the writer from the caller's inputs (= R20b): in CARv1 mode the file is exactly the payload", Run: ruleR20b},
 			{ID: "R05f", Floor: 1, Doc: "a resumed session's index holds every section already in the file (= R12c)", Run: ruleR12c},
 		},
 	})
